@@ -44,6 +44,7 @@ fn main() {
         return;
     }
     if args[1] == "worker" {
+        common::exit_when_parent_dies();
         std::process::exit(mon::worker::main(&args[2..]));
     }
     let prop_arg = args[1].to_uppercase();
@@ -92,9 +93,11 @@ fn main() {
         std::thread::spawn(move || {
             std::thread::sleep(std::time::Duration::from_secs(limit));
             println!("INCONCLUSIVE property={} reason=watchdog: the run did not finish within {} s (a detector may not terminate on some input; wall clock is not a verdict)", p, limit);
+            common::kill_descendants();
             std::process::exit(2);
         });
     }
     let code = mon::run(&ctx);
+    common::kill_descendants();
     std::process::exit(code);
 }
